@@ -1409,7 +1409,19 @@ class Structure(UniqueMixin, metaclass=StructMeta):
                 self, REQUIRED_FIELDS
         ):
             raise ValueError(f"{key} is mandatory")
+        # like an assignment, a deletion is a mutation the class's __validate__ hook must accept;
+        # when it raises, the instance is left exactly as it was (attribute order included)
+        snapshot = dict(self.__dict__)
         del self.__dict__[key]
+        if getattr(self, "_instantiated", False) and not getattr(
+                self, "_skip_validation", False
+        ):
+            try:
+                self.__validate__()
+            except Exception:
+                self.__dict__.clear()
+                self.__dict__.update(snapshot)
+                raise
 
     def __validate__(self):
         pass
